@@ -80,7 +80,8 @@ static trace::SpanContext any_context(bool valid) {
   for (int i = 0; i < 16; i++) tid[i] = nondet_u8();
   for (int i = 0; i < 8; i++) sid[i] = nondet_u8();
   uint8_t fl = nondet_u8(); bool remote = nondet_bool();
-  trace::SpanContext sc(trace::TraceId(tid), trace::SpanId(sid), trace::TraceFlags(fl), remote);
+  // the parent carries its OWN trace state (not the shared default object), so "the parent's trace state" is observable
+  trace::SpanContext sc(trace::TraceId(tid), trace::SpanId(sid), trace::TraceFlags(fl), remote, trace::TraceState::FromHeader("p=1"));
   VASSUME(sc.IsValid() == valid);
   return sc;
 }
@@ -145,7 +146,7 @@ ENTRY h_start_span() {
   VASSERT(sc.IsSampled() == sampled, "sampled flag equals the sampler's decision");
   VASSERT((sc.trace_flags().flags() & ~trace::TraceFlags::kAllW3CTraceContext1Flags) == 0, "only W3C level-1 flag bits are set");
   if (sampler_ts) VASSERT(sc.trace_state().get() == sts.get(), "trace state is the sampler's when it gives one");
-  else if (has_parent) VASSERT(sc.trace_state().get() == parent.trace_state().get(), "trace state is the parent's when the sampler gives none");
+  else if (has_parent) VASSERT(sc.trace_state().get() == parent.trace_state().get() && !sc.trace_state()->Empty(), "trace state is the parent's when the sampler gives none");
   VASSERT(!sc.IsRemote(), "a locally started span is not remote");
   if (!recording) {
     VASSERT(g_make == 0 && g_onstart == 0 && !span->IsRecording(), "dropped span: no recordable, no OnStart, not recording");
@@ -184,4 +185,23 @@ ENTRY h_span_ops() {
   VASSERT(n_name == 0 || g_name0 == last_name, "name is the last UpdateName before End");
   span = nostd::shared_ptr<trace::Span>(nullptr);       // destroying the span ends it if still open
   VASSERT(g_onend == 1 && g_rec_live == 0, "destruction ends an open span once; the recordable is released exactly once");
+}
+
+// ---- C04: a span that is not recorded never reaches a recordable or the processor, whatever is called on it
+ENTRY h_span_ops_dropped() {
+  auto tracer = make_tracer(false);
+  any_generator_ids();
+  g_decision = (uint8_t)sdkt::Decision::DROP; g_sampler_ts = nullptr;
+  trace::StartSpanOptions opts; NoAttrs a; NoLinks l;
+  nostd::shared_ptr<trace::Span> span = tracer->StartSpan("n", a, l, opts);
+  for (int step = 0; step < 3; step++) {
+    uint8_t op = nondet_u8() % 5;
+    if (op == 0) span->SetAttribute("k", (int64_t)nondet_u64());
+    else if (op == 1) span->AddEvent("e");
+    else if (op == 2) span->SetStatus(trace::StatusCode::kError, "d");
+    else if (op == 3) span->UpdateName("x");
+    else span->End();
+  }
+  span = nostd::shared_ptr<trace::Span>(nullptr);
+  VASSERT(g_make == 0 && g_onstart == 0 && g_onend == 0 && g_nlog == 0, "a dropped span is never exported and no operation on it reaches a recordable");
 }
